@@ -27,6 +27,8 @@ pub struct SweepCfg {
     pub families: Vec<String>,
     /// only fields whose kind is in this string (empty = all)
     pub kinds: String,
+    /// C11: an object whose storage differs from its re-wrap (state above bit N-1) is a violation
+    pub strict_storage: bool,
 }
 
 pub enum StateSet {
@@ -103,6 +105,7 @@ struct Ctx<'a> {
     f: &'a FieldSpec,
     do_get: bool,
     do_put: bool,
+    strict_storage: bool,
 }
 
 /// One (idx, state) batch, executed without any catch_unwind inside. Returns mismatches as
@@ -153,6 +156,20 @@ fn batch(
             }
             if o1 != e {
                 r.hidden_bits += 1;
+                if c.strict_storage {
+                    // storage differs from the reference register: is the object distinguishable from its re-wrap?
+                    let re = m.init(m.raw(o1));
+                    r.transitions += 2;
+                    r.compared += 1;
+                    if re != o1 {
+                        out.push((
+                            "hidden_storage".into(),
+                            vec![Step::init(s), Step::op("with", fi, idx, v), Step::op("storage_eq_rewrap", 0, 0, 0)],
+                            1,
+                            0,
+                        ));
+                    }
+                }
             }
             if f.readable {
                 let g1 = m.get(o1, fi, idx);
@@ -180,6 +197,19 @@ fn batch(
                     e,
                     r2,
                 ));
+            }
+            if o2 != e && c.strict_storage {
+                let re = m.init(m.raw(o2));
+                r.transitions += 2;
+                r.compared += 1;
+                if re != o2 {
+                    out.push((
+                        "hidden_storage".into(),
+                        vec![Step::init(s), Step::op("set", fi, idx, v), Step::op("storage_eq_rewrap", 0, 0, 0)],
+                        1,
+                        0,
+                    ));
+                }
             }
             if o2 != o1 {
                 // storage differs between set_ and with_: decide observationally through every getter
@@ -447,7 +477,7 @@ pub fn sweep(machines: &[(&dyn Machine, &MachineSpec)], cfg: &SweepCfg) -> Repor
                 }
                 let (mi, fi) = items[i];
                 let (m, ms) = machines[mi];
-                let c = Ctx { m, ms, fi, f: &ms.fields[fi], do_get, do_put };
+                let c = Ctx { m, ms, fi, f: &ms.fields[fi], do_get, do_put, strict_storage: cfg.strict_storage };
                 let r = sweep_item(&c, cfg, &start, &stop);
                 *results[i].lock().unwrap() = Some(r);
             });
